@@ -40,6 +40,6 @@ PY
 export -f one
 export PAR
 rmdir /tmp/seedown.lock.* 2>/dev/null
-ls -d ${MUTANTS:-seeded/C*-[a-z]} | xargs -P "$PAR" -I{} bash -c 'one {}' > "$OUT.tmp"
+ls -d ${MUTANTS:-seeded/C*-[a-z]*} | xargs -P "$PAR" -I{} bash -c 'one {}' > "$OUT.tmp"
 sort "$OUT.tmp" > "$OUT"; rm -f "$OUT.tmp"
 echo "own-check table written to $OUT: $(wc -l < "$OUT") rows; not caught: $(awk -F'\t' '$3!=1' "$OUT" | wc -l)"
